@@ -33,9 +33,9 @@ def run_tlc(spec_dir, module, cfg, workdir, *, workers=4, timeout=600, env=None,
     """
     scratch = tempfile.mkdtemp(prefix="tlc-", dir=workdir)
     # copy the spec directory and the shared modules flat into scratch
-    for d in (spec_dir,) + tuple(lib_dirs):
+    for d in tuple(lib_dirs) + (spec_dir,):
         for f in os.listdir(d):
-            if f.endswith((".tla", ".cfg")):
+            if f.endswith(".tla") or (d == spec_dir and f.endswith(".cfg")):
                 shutil.copy(os.path.join(d, f), os.path.join(scratch, f))
     meta = os.path.join(scratch, "meta")
     jopts = ["-Xmx" + heap, "-Xss512m", "-XX:TieredStopAtLevel=1", "-XX:+UseParallelGC",
